@@ -6,7 +6,9 @@ OPS = ["encrypt_compact", "decrypt_compact", "encrypt_json", "decrypt_json", "jw
 
 def conds(tier):
     T = 360 if tier == "quick" else 1800
-    path, names = gen.specialise("c05_allow.py", [("jwe_ops", [(o,) for o in range(6)])], "c05_gen.py")
-    out = [Cond(path, n, "main", T, "JWE operation %s: returns / reaches a primitive only if alg, enc and zip are admitted" % OPS[int(n.split("__")[1])]) for n in names]
+    path, names = gen.specialise("c05_allow.py", [("jwe_ops", [(o, v) for o in range(6) for v in range(3)] if tier == "quick" else
+                                                         [(o, v, f) for o in range(6) for v in range(3) for f in range((2, 6, 6)[v])])], "c05_gen.py")
+    out = [Cond(path, n, "main", T, "JWE operation %s, symbolic %s name: returns / reaches a primitive only if alg, enc and zip are admitted"
+                % (OPS[int(n.split("__")[1].split("_")[0])], ("alg", "enc", "zip")[int(n.split("__")[1].split("_")[1])])) for n in names]
     out.append(Cond("c05_allow.py", "jwe_ops_witness", "witness", 200))
     return out
